@@ -1490,6 +1490,8 @@ func GenC18(seed, index uint64, build string) *Run {
 	if r.P(0.3) {
 		sc.MaxChunk = 1 + r.N(40)
 	}
+	// one script in six is served by a device that is an io.ByteReader too
+	sc.ByteReader = r.P(1.0 / 6)
 	// now and then a very long run of rejected blocks (up to 2^17, in the deep
 	// tier 2^20): "skipped by drawing again" has no limit in the statement, a
 	// give-up counter in the implementation would. Single caller only (the run
